@@ -243,6 +243,12 @@ example : accepted (Array.replicate 64 0#64) exPos2 ⟨4, 4, Facts.mtPlaceFlat, 
 example : exPos.allMoves.length = 16 ∧ (exPos.allMoves.filter (legal exPos)).length = 16 := by decide
 example : exPos2.allMoves.length = 107 ∧ (exPos2.allMoves.filter (legal exPos2)).length = 86 := by decide +kernel
 example : (⟨0, 0, Facts.mtSlideRight, 1#32⟩ : Tak.Move) ∈ exPos.allMoves := by decide
+-- the hypotheses of the list-level theorems are met by these positions
+example : exPos2.allMoves.Nodup := allMoves_nodup exPos2 (by decide)
+example : ∃ dx dy : Int, (⟨0, 0, Facts.mtSlideUp, 0x1112#32⟩ : Tak.Move).dest = some (dx, dy) ∧ 0 ≤ dx ∧ dx < 5 ∧ 0 ≤ dy ∧ dy < 5 :=
+  (allMoves_onboard exPos2 (by decide) (by decide) _ (by decide +kernel)).2.2.2.2.2
+example : (exPos2.allMoves.filter (legal exPos2)).Perm (Spec.legalMoves (abs exPos2)) := legalMoves_perm exPos2 exPos2_wf
+example : (exPos2.allMoves.filter (legal exPos2)).Nodup := (legal_filter_eq exPos2 exPos2_wf).2.2.1
 example : ∃ p, Pos.new ⟨5, 0, 0, false⟩ = .ok p ∧ p.allMoves.length = 25 := ⟨_, rfl, by decide⟩
 
 end C03
